@@ -713,11 +713,12 @@ MUTANTS = [   # (mutant, invariant it must violate, constants)
 ]
 
 
-def cfg_text(n, plen, ops, mutant="none", legacy=True, warm=False, invs=None, deadlock=True, view=True):
+def cfg_text(n, plen, ops, mutant="none", legacy=True, warm=False, invs=None, deadlock=True, view=True, lazy=True):
     invs = INVS if invs is None else invs
     lines = ["SPECIFICATION Spec", "CONSTANTS", f"  NThreads = {n}", f"  ProgLen = {plen}",
              "  OpSel = {" + ", ".join('"%s"' % o for o in ops) + "}", f'  Mutant = "{mutant}"',
-             "  Legacy = " + ('{"warn_ctx"}' if legacy else "{}"), f"  WarmPool = {'TRUE' if warm else 'FALSE'}"]
+             "  Legacy = " + ('{"warn_ctx"}' if legacy else "{}"), f"  WarmPool = {'TRUE' if warm else 'FALSE'}",
+             f"  LazyProg = {'TRUE' if lazy else 'FALSE'}"]
     if view:
         lines.append("VIEW View")
     lines += [f"INVARIANT {i}" for i in invs]
